@@ -4,6 +4,7 @@ import LoraVerif.Lemmas.MacWFStep
 import LoraVerif.Lemmas.GhostC
 import LoraVerif.Lemmas.RefineC
 import LoraVerif.Lemmas.HistoryCSafe
+import LoraVerif.Lemmas.RefineListen
 /-!
 # C07 — frames that are not accepted change nothing
 
@@ -1494,3 +1495,162 @@ end C07
 #print axioms C07.historyC_rejected_insertable
 #print axioms C07.asyncC_rejected_insertable
 #print axioms C07.joinC_rxc_frames_invisible
+
+/-! ## `Device::rxc_listen` (builder Q)
+
+Deleting frames the REFERENCE rejects from the script of one listen call.  Before the first accepted
+frame the counter the reference holds does not move, and after it this call hears nothing: every frame
+of the script is judged under the counter `last` the call starts with (`RejRxc`). -/
+namespace C07
+
+/-- delete the marked frames from a script (only frames can be deleted; the script is followed up to the
+radio answer that ends the listening) -/
+def thinScript : List Bool → List ScriptItem → List ScriptItem
+  | true :: ks, .frame _ _ :: rest => thinScript ks rest
+  | false :: ks, .frame snr v :: rest => .frame snr v :: thinScript ks rest
+  | _, s => s
+
+/-- every deleted frame is one the reference rejects under the counter `last` and the size limit `mp` -/
+def LegalScript (last : Option Nat) (mp : Nat) : List Bool → List ScriptItem → Prop
+  | k :: ks, .frame _ v :: rest => (k = true → RejRxc (some last) v mp) ∧ LegalScript last mp ks rest
+  | _, _ => True
+
+instance (last : Option Nat) (mp : Nat) : (ks : List Bool) → (s : List ScriptItem) → Decidable (LegalScript last mp ks s)
+  | [], _ => isTrue (by simp [LegalScript])
+  | _ :: _, [] => isTrue (by simp [LegalScript])
+  | _ :: _, .ok :: _ => isTrue (by simp [LegalScript])
+  | _ :: _, .err :: _ => isTrue (by simp [LegalScript])
+  | k :: ks, .frame _ v :: rest =>
+    have := instDecidableLegalScript last mp ks rest
+    by simp only [LegalScript]; infer_instance
+
+theorem thinScript_nil (ks : List Bool) : thinScript ks [] = [] := by
+  cases ks with
+  | nil => rfl
+  | cons k ks => cases k <;> rfl
+
+theorem thinScript_ok (ks : List Bool) (rest : List ScriptItem) : thinScript ks (.ok :: rest) = .ok :: rest := by
+  cases ks with
+  | nil => rfl
+  | cons k ks => cases k <;> rfl
+
+theorem thinScript_err (ks : List Bool) (rest : List ScriptItem) : thinScript ks (.err :: rest) = .err :: rest := by
+  cases ks with
+  | nil => rfl
+  | cons k ks => cases k <;> rfl
+
+theorem rejRxc_spec {last : Option Nat} {v : RxView} {mp : Nat} (h : RejRxc (some last) v mp) : specRxc last v mp = none := by
+  cases v with
+  | data d => simp only [RejRxc] at h; simp [specRxc, h]
+  | garbage => rfl
+  | joinAccept j => rfl
+
+theorem thinScript_all (P : RxView → Bool) (ks : List Bool) (s : List ScriptItem) (h : s.all (ScriptItem.allView P) = true) :
+    (thinScript ks s).all (ScriptItem.allView P) = true := by
+  induction s generalizing ks with
+  | nil => rw [thinScript_nil]; exact h
+  | cons i rest ih =>
+    cases ks with
+    | nil => exact h
+    | cons k ks =>
+      cases i with
+      | ok => rw [thinScript_ok]; exact h
+      | err => rw [thinScript_err]; exact h
+      | frame snr v =>
+        simp only [List.all_cons, Bool.and_eq_true] at h
+        cases k with
+        | true => simpa [thinScript] using ih ks h.2
+        | false =>
+          simp only [thinScript, List.all_cons, Bool.and_eq_true]
+          exact ⟨h.1, ih ks h.2⟩
+
+/-- thinning a script by reference-rejected frames changes neither which frame is the first accepted one
+(its counter and contents) nor how the listening ends -/
+theorem thinScript_first (last : Option Nat) (mp : Nat) (ks : List Bool) (s : List ScriptItem) (h : LegalScript last mp ks s) :
+    (firstAccepted last mp (leadFrames (thinScript ks s)).1).map (·.2) = (firstAccepted last mp (leadFrames s).1).map (·.2) ∧
+      listenEndsErr (thinScript ks s) = listenEndsErr s := by
+  induction s generalizing ks with
+  | nil => rw [thinScript_nil]; exact ⟨rfl, rfl⟩
+  | cons i rest ih =>
+    cases ks with
+    | nil => exact ⟨rfl, rfl⟩
+    | cons k ks =>
+      cases i with
+      | ok => rw [thinScript_ok]; exact ⟨rfl, rfl⟩
+      | err => rw [thinScript_err]; exact ⟨rfl, rfl⟩
+      | frame snr v =>
+        simp only [LegalScript] at h
+        obtain ⟨h1, h2⟩ := ih ks h.2
+        cases k with
+        | true =>
+          have hs := rejRxc_spec (h.1 rfl)
+          simp only [thinScript, leadFrames, firstAccepted, hs, listenEndsErr, Option.map_map]
+          exact ⟨by rw [h1]; cases firstAccepted last mp (leadFrames rest).1 <;> rfl, h2⟩
+        | false =>
+          simp only [thinScript, leadFrames, firstAccepted, listenEndsErr]
+          refine ⟨?_, h2⟩
+          cases specRxc last v mp with
+          | some p => rfl
+          | none =>
+            simp only [Option.map_map]
+            have : ∀ x : Option (Nat × Nat × RxData), x.map ((fun y => y.2) ∘ fun y => (y.1 + 1, y.2)) = x.map (·.2) := by
+              intro x; cases x <;> rfl
+            rw [this, this, h1]
+
+/-- **C07 for `rxc_listen`: rejected frames are invisible.**  A device with a session (tracker `some last`),
+any script with 16-bit wire counters, any deletion of frames the reference rejects (forged, replayed, too
+far ahead, oversized for the RXC data rate, not a data frame): the call on the thinned script returns
+the SAME answer, the SAME MAC state and the SAME downlink queue as the call that heard them. -/
+theorem async_listen_rejected_invisible (r : DevRun) (last : Option Nat) (hr : GhRel r.m (some last))
+    (hv : r.script.all (ScriptItem.allView viewOk) = true) (ks : List Bool)
+    (hleg : LegalScript last (rxcMp r.m) ks r.script) (res : ListenResult) (r' : DevRun)
+    (h : asyncListen r = .ok (res, r')) :
+    ∃ r'', asyncListen { r with script := thinScript ks r.script } = .ok (res, r'') ∧
+      r''.m = r'.m ∧ r''.downlinks = r'.downlinks := by
+  unfold asyncListen at h ⊢
+  obtain ⟨rf, hrf, h⟩ := Except.bind_eq_ok h
+  obtain ⟨s, hst, rfl, hl⟩ := hr
+  obtain ⟨res0, r0, h0, hnf⟩ := listenLoop_joined rf.maxPayload.toNat (r.script.length + 1) r s hst hl hv (Nat.lt_succ_self _)
+  rw [h0] at h
+  simp only [Except.ok.injEq, Prod.mk.injEq] at h
+  obtain ⟨rfl, rfl⟩ := h
+  obtain ⟨res1, r1, h1, hnf1⟩ := listenLoop_joined rf.maxPayload.toNat ((thinScript ks r.script).length + 1)
+    { r with script := thinScript ks r.script } s hst hl (thinScript_all viewOk ks r.script hv) (Nat.lt_succ_self _)
+  simp only [hrf, bind, Except.bind]
+  rw [rxcMp_of_ok hrf] at hnf hnf1
+  obtain ⟨hfa, hend⟩ := thinScript_first s.fcntDown (rxcMp r.m) ks r.script hleg
+  unfold ListenNF at hnf hnf1
+  simp only [] at hnf1
+  refine ⟨r1, ?_⟩
+  rw [h1]
+  cases hx : firstAccepted s.fcntDown (rxcMp r.m) (leadFrames r.script).1 with
+  | none =>
+    rw [hx] at hfa
+    simp only [Option.map_none, Option.map_eq_none_iff] at hfa
+    simp only [hx, hfa, hend] at hnf hnf1
+    refine ⟨?_, by rw [hnf1.1, hnf.1], by rw [hnf1.2.1, hnf.2.1]⟩
+    rw [hnf1.2.2.1, hnf.2.2.1]
+  | some x =>
+    obtain ⟨k, N, d⟩ := x
+    rw [hx] at hfa
+    simp only [Option.map_some, Option.map_eq_some_iff] at hfa
+    obtain ⟨⟨k', N', d'⟩, hy, hyx⟩ := hfa
+    simp only [Prod.mk.injEq] at hyx
+    obtain ⟨rfl, rfl⟩ := hyx
+    simp only [hx, hy] at hnf hnf1
+    refine ⟨?_, by rw [hnf1.1, hnf.1], by rw [hnf1.2.1, hnf.2.1]⟩
+    rw [hnf1.2.2.1, hnf.2.2.1]
+
+/-! non-vacuity: the script of `C05.listenStart` (forged, replay, too far ahead, authentic, one more) with the
+three rejected frames deleted -/
+
+example : LegalScript (some 10) (rxcMp C05.listenStart.m) [true, true, true, false] C05.listenStart.script := by decide +kernel
+example : (thinScript [true, true, true, false] C05.listenStart.script).length = 2 := by decide
+example : (asyncListen { C05.listenStart with script := thinScript [true, true, true, false] C05.listenStart.script }).toOption.map
+    (fun x => (x.1, x.2.m.fcntUp?)) = (asyncListen C05.listenStart).toOption.map (fun x => (x.1, x.2.m.fcntUp?)) := by decide +kernel
+/-- the accepted frame is not deletable -/
+example : ¬ LegalScript (some 10) (rxcMp C05.listenStart.m) [false, false, false, true] C05.listenStart.script := by decide +kernel
+
+end C07
+
+#print axioms C07.async_listen_rejected_invisible
